@@ -10,34 +10,34 @@ use crate::family::obs::push_observer;
 use crate::h_c13::{cut_success_path, format_any, gen_any_one, uci_string_any};
 use crate::h_zobrist::psq_indicator;
 use crate::refchess::{B, N, P, Q, R};
-use crate::{deep2_cells, deep3_cells, quick_cells, squares64, tiny_cells};
+use crate::{deep2_cells, deep3_cells, exact_cells, quick_cells, squares64, tiny_cells};
 
 /// family harness: push observer + lookup model
 macro_rules! kfam {
-    ($group:ident, $cell:ident, $body:path, $kinds:expr, $turn:expr) => {
+    ($group:ident, $cell:ident, $body:path, $kinds:expr, $turn:expr, $opt:expr) => {
         #[kani::proof]
         #[kani::unwind(9)]
         #[kani::stub(std::vec::Vec::push, push_observer)]
         #[kani::stub(<[inkayaku_board::verif::MagicConfiguration; 64] as inkayaku_board::verif::UnsafeMagicsExt>::get_attacks, magics_model)]
-        pub fn $cell() { $body(&$kinds, $turn, true) }
+        pub fn $cell() { $body(&$kinds, $turn, $opt) }
     };
 }
 
 /// C06.1: additionally indicator keys
 macro_rules! kfam6 {
-    ($group:ident, $cell:ident, $body:path, $kinds:expr, $turn:expr) => {
+    ($group:ident, $cell:ident, $body:path, $kinds:expr, $turn:expr, $opt:expr) => {
         #[kani::proof]
         #[kani::unwind(9)]
         #[kani::stub(std::vec::Vec::push, push_observer)]
         #[kani::stub(<[inkayaku_board::verif::MagicConfiguration; 64] as inkayaku_board::verif::UnsafeMagicsExt>::get_attacks, magics_model)]
         #[kani::stub(inkayaku_board::board::zobrist::Zobrist::piece_square_hash, psq_indicator)]
-        pub fn $cell() { $body(&$kinds, $turn, true) }
+        pub fn $cell() { $body(&$kinds, $turn, $opt) }
     };
 }
 
 /// C13: additionally the one-element list abstraction and the arbitrary-string `format`
 macro_rules! kfam13 {
-    ($group:ident, $cell:ident, $body:path, $kinds:expr, $turn:expr) => {
+    ($group:ident, $cell:ident, $body:path, $kinds:expr, $turn:expr, $opt:expr) => {
         #[kani::proof]
         #[kani::unwind(9)]
         #[kani::stub(std::vec::Vec::push, push_observer)]
@@ -45,13 +45,13 @@ macro_rules! kfam13 {
         #[kani::stub(inkayaku_board::Bitboard::generate_pseudo_legal_moves, gen_any_one)]
         #[kani::stub(inkayaku_board::Move::to_uci_string, uci_string_any)]
         #[kani::stub(alloc::fmt::format, format_any)]
-        pub fn $cell() { $body(&$kinds, $turn, true) }
+        pub fn $cell() { $body(&$kinds, $turn, $opt) }
     };
 }
 
 /// C13 uci_to_pgn: additionally the success path is cut after the validity check
 macro_rules! kfam13san {
-    ($group:ident, $cell:ident, $body:path, $kinds:expr, $turn:expr) => {
+    ($group:ident, $cell:ident, $body:path, $kinds:expr, $turn:expr, $opt:expr) => {
         #[kani::proof]
         #[kani::unwind(9)]
         #[kani::stub(std::vec::Vec::push, push_observer)]
@@ -60,7 +60,7 @@ macro_rules! kfam13san {
         #[kani::stub(inkayaku_board::Move::to_uci_string, uci_string_any)]
         #[kani::stub(alloc::fmt::format, format_any)]
         #[kani::stub(inkayaku_board::Bitboard::is_current_in_check, cut_success_path)]
-        pub fn $cell() { $body(&$kinds, $turn, true) }
+        pub fn $cell() { $body(&$kinds, $turn, $opt) }
     };
 }
 
@@ -101,6 +101,7 @@ macro_rules! family_group {
             deep2_cells!($k, $group, $body);
             deep3_cells!($k, $group, $body);
             tiny_cells!($k, $group, $body);
+            exact_cells!($k, $group, $body);
         }
     };
 }
@@ -149,12 +150,18 @@ pub mod c05_full {
 pub mod c06_lemma {
     use super::*;
     kplain!(zero_rows, 2, crate::h_zobrist::c06_zero_rows());
-    kplain!(linear_p, 5, crate::h_zobrist::c06_linear(P));
-    kplain!(linear_n, 5, crate::h_zobrist::c06_linear(N));
-    kplain!(linear_b, 5, crate::h_zobrist::c06_linear(B));
-    kplain!(linear_r, 5, crate::h_zobrist::c06_linear(R));
-    kplain!(linear_q, 5, crate::h_zobrist::c06_linear(Q));
-    kplain!(fields, 5, crate::h_zobrist::c06_fields());
+    kplain!(linear_p, 5, crate::h_zobrist::c06_linear(P, 1));
+    kplain!(linear3_p, 5, crate::h_zobrist::c06_linear(P, 2));
+    kplain!(linear_n, 5, crate::h_zobrist::c06_linear(N, 1));
+    kplain!(linear3_n, 5, crate::h_zobrist::c06_linear(N, 2));
+    kplain!(linear_b, 5, crate::h_zobrist::c06_linear(B, 1));
+    kplain!(linear3_b, 5, crate::h_zobrist::c06_linear(B, 2));
+    kplain!(linear_r, 5, crate::h_zobrist::c06_linear(R, 1));
+    kplain!(linear3_r, 5, crate::h_zobrist::c06_linear(R, 2));
+    kplain!(linear_q, 5, crate::h_zobrist::c06_linear(Q, 1));
+    kplain!(linear3_q, 5, crate::h_zobrist::c06_linear(Q, 2));
+    kplain!(fields, 5, crate::h_zobrist::c06_fields(false));
+    kplain!(fields2, 5, crate::h_zobrist::c06_fields(true));
     kplain!(separate_piece, 4, crate::h_zobrist::c06_separate_piece());
     kplain!(separate_king, 4, crate::h_zobrist::c06_separate_king());
     kplain!(separate_flags, 4, crate::h_zobrist::c06_separate_flags());
@@ -196,6 +203,22 @@ pub mod c15 {
     kplain!(square, 2, crate::h_uci::c15_square());
     kplain!(square_text, 4, crate::h_uci::c15_square_text());
     kplain!(roundtrip, 8, crate::h_uci::c15_roundtrip());
+    kplain!(go_tokens, 14, crate::h_cmd::c15_go_tokens());
+    kplain!(numbers, 14, crate::h_cmd::c15_numbers());
+    kplain!(searchmoves_0, 14, crate::h_cmd::c15_searchmoves(0));
+    kplain!(searchmoves_1, 14, crate::h_cmd::c15_searchmoves(1));
+    kplain!(searchmoves_2, 14, crate::h_cmd::c15_searchmoves(2));
+    kplain!(searchmoves_3, 14, crate::h_cmd::c15_searchmoves(3));
+    kplain!(searchmoves_4, 14, crate::h_cmd::c15_searchmoves(4));
+    kplain!(searchmoves_5, 14, crate::h_cmd::c15_searchmoves(5));
+    kplain!(searchmoves_6, 14, crate::h_cmd::c15_searchmoves(6));
+    kplain!(searchmoves_7, 14, crate::h_cmd::c15_searchmoves(7));
+    kplain!(searchmoves_8, 14, crate::h_cmd::c15_searchmoves(8));
+    kplain!(searchmoves_9, 14, crate::h_cmd::c15_searchmoves(9));
+    kplain!(searchmoves_10, 14, crate::h_cmd::c15_searchmoves(10));
+    kplain!(searchmoves_11, 14, crate::h_cmd::c15_searchmoves(11));
+    // beyond CBMC (kept for the record, not part of any tier): tokenisation of symbolic text
+    kplain!(tokens, 14, crate::h_cmd::c15_tokens());
 }
 
 /// Vacuity twins (DESIGN.md 1.6): the same bodies followed by `assert!(false)`.  Each must come back FAILED
@@ -205,25 +228,25 @@ pub mod c15 {
 pub mod twin {
     use super::*;
     macro_rules! ktwin {
-        ($group:ident, $cell:ident, $body:path, $kinds:expr, $turn:expr) => {
+        ($group:ident, $cell:ident, $body:path, $kinds:expr, $turn:expr, $opt:expr) => {
             #[kani::proof]
             #[kani::unwind(9)]
             #[kani::stub(std::vec::Vec::push, push_observer)]
             #[kani::stub(<[inkayaku_board::verif::MagicConfiguration; 64] as inkayaku_board::verif::UnsafeMagicsExt>::get_attacks, magics_model)]
             #[kani::stub(inkayaku_board::board::zobrist::Zobrist::piece_square_hash, psq_indicator)]
             pub fn $cell() {
-                $body(&$kinds, $turn, true);
+                $body(&$kinds, $turn, $opt);
                 assert!(false, "TWIN end of harness body reached");
             }
         };
     }
-    ktwin!(twin, c01_gen, crate::h_board::c01_gen, [P], 0);
-    ktwin!(twin, c01_legal, crate::h_board::c01_legal, [P], 1);
-    ktwin!(twin, c01_nq, crate::h_board::c01_nq, [P], 0);
-    ktwin!(twin, c02_make, crate::h_board::c02_make, [P], 1);
-    ktwin!(twin, c03_undo, crate::h_board::c03_undo, [P], 0);
-    ktwin!(twin, c05_valid, crate::h_board::c05_valid, [P], 1);
-    ktwin!(twin, c06_incr, crate::h_board::c06_incr, [P], 0);
+    ktwin!(twin, c01_gen, crate::h_board::c01_gen, [P], 0, true);
+    ktwin!(twin, c01_legal, crate::h_board::c01_legal, [P], 1, true);
+    ktwin!(twin, c01_nq, crate::h_board::c01_nq, [P], 0, true);
+    ktwin!(twin, c02_make, crate::h_board::c02_make, [P], 1, true);
+    ktwin!(twin, c03_undo, crate::h_board::c03_undo, [P], 0, true);
+    ktwin!(twin, c05_valid, crate::h_board::c05_valid, [P], 1, true);
+    ktwin!(twin, c06_incr, crate::h_board::c06_incr, [P], 0, true);
     macro_rules! ktwin13 {
         ($cell:ident, $body:path) => {
             #[kani::proof]
@@ -255,7 +278,7 @@ pub mod twin {
     ktwinp!(c04_rook, 9, crate::h_tables::c04_rook(27));
     ktwinp!(c04_leapers, 9, crate::h_tables::c04_leapers());
     ktwinp!(c05_check, 9, crate::h_check::c05_check_full(0));
-    ktwinp!(c06_linear, 5, crate::h_zobrist::c06_linear(R));
+    ktwinp!(c06_linear, 5, crate::h_zobrist::c06_linear(R, 1));
     ktwinp!(c06_separate_flags, 4, crate::h_zobrist::c06_separate_flags());
     ktwinp!(c10_rep, 15, crate::h_engine::c10_rep::<12>(0, 4095));
     ktwinp!(c10_fifty, 4, crate::h_engine::c10_fifty());
